@@ -48,7 +48,6 @@ fn check(h: &Hnsw, cfg: &Cfg, model: &VecModel, alt: Option<&VecModel>, tally: &
 }
 
 struct WWorld {
-    cfg: Cfg,
     vectors: Vec<[Vec<f32>; 2]>,
     store: Arc<CtlStore>,
     ctl: Arc<Ctl>,
@@ -77,7 +76,6 @@ impl WWorld {
         let hnsw = block_on(Hnsw::new(&field, cfg.hnsw_config(), storage.clone(), 1))
             .map_err(|e| Fail::new("op_error", format!("Hnsw::new failed: {e}")))?;
         Ok(WWorld {
-            cfg: cfg.clone(),
             vectors: vector_set(cfg.dim),
             store,
             ctl,
